@@ -421,6 +421,21 @@ func TestC13(t *testing.T) {
 				c.White[i] = rapid.Float32Range(0.5, 2).Draw(rt, "w")
 			}
 		}
+		// a sixth of the forward cases are near-neutral: a multiple of the white whose X and Z are off by a relative
+		// 1e-7 .. 1e-2 (tinted greys, whites of other standards): small a*, b* that are not zero
+		if c.Kind == "tolab" && rapid.IntRange(0, 5).Draw(rt, "nearneutral") == 0 {
+			tt := rapid.Float32Range(0.01, 1.5).Draw(rt, "nnt")
+			for i := range c.V {
+				d := float32(0)
+				if i != 1 {
+					d = float32(math.Pow(10, rapid.Float64Range(-7, -2).Draw(rt, "nnexp")))
+					if rapid.Bool().Draw(rt, "nnneg") {
+						d = -d
+					}
+				}
+				c.V[i] = tt * c.White[i] * (1 + d)
+			}
+		}
 		ev.Eval(1)
 		if nontrivial(c) {
 			ev.NT(ev.Hash("rapid", c))
